@@ -494,7 +494,7 @@ func checkC16(c *core.Ctx, l *core.Ledger) {
 			edges := core.GuardEdges(f, func(cm core.Cmp) bool {
 				fld, _ := core.LoadedField(cm.X)
 				k, isC := cm.Y.(*ssa.Const)
-				return cm.Op == token.NEQ && fld != nil && fld.Name() == "ServiceGenerator" && isC && k.IsNil()
+				return cm.Op == token.NEQ && fld != nil && core.FieldName(fld) == "ServiceGenerator" && isC && k.IsNil()
 			})
 			if !core.AllPathsThroughEdges(f, sg.Block(), edges) {
 				ok, why = false, "ServiceGenerator is served although the plugin has no service generator"
